@@ -1136,6 +1136,8 @@ def pp_mc(ctx, lookup=True, lifecycle=True):
             run_mc_text(ctx, "MCPPolyObj", mcppoly_cfg(fixed, 3 if ctx.quick() else 4, False), "MCPPolyObj(fixed=%d)" % fixed, workers=8, heap="8g")
         for b in ("noinvalidate", "keeptable", "assignkeep"):
             run_mc_text(ctx, "MCPPolyObj", mcppoly_cfg(0, 3, False, b), "broken twin lifecycle:" + b, workers=4, expect_violation=True)
+        run_mc_text(ctx, "MCPPolyObj", mcppoly_cfg(0, 4, False, "sharecache", ncs="{3, 4}", kinds='{"ok"}', evalks="{1}", derivks="{1}", segs="{1}"),
+                    "broken twin lifecycle:sharecache", workers=4, expect_violation=True)
 
 
 def pp_finish(ctx, batches, rule, props):
@@ -1198,7 +1200,7 @@ def plan_C11(ctx):
     replay_and_validate(ctx, exe, balanced(sexecs, 16 if ctx.quick() else 48), "TraceSpline", {"VJ_KEEPMEMO": "1"}, label="s")
     return finish(ctx, "model_checking",
                   "TLC explores the PPolyND life cycle (construct valid/rejected, update same/different sizes, copy, assign, derivative trajectory, "
-                  "evaluation at several orders) with the two lazy caches modelled (CacheCoherent, NeverStale; 3 broken twins rejected); one script "
+                  "evaluation at several orders) with the two lazy caches modelled (CacheCoherent, NeverStale, NoSharedCache; 4 broken twins rejected); one script "
                   "per abstract transition, class-balanced sample, expanded on dynamic and fixed ORDER with coefficient counts on both sides of the "
                   "static-table limit and segment counts on both sides of the search threshold; every evaluation must equal the exact value of "
                   "the LATEST data of that object (also after assignment between objects whose caches are in different states: third broken "
